@@ -521,6 +521,9 @@ theorem stubD_sigkw_agree (dflt : Bool) (w : World) (src : ClassSrc) :
     (stubInitD dflt w src).kw = sigKwD dflt w src :=
   c16_stubD_sigkw dflt w src
 
+/-- with the shipped default the `**kwargs` compared above is literally the `kwargs` of Define's `make_signature` -/
+theorem stubD_sigkw_is_define (w : World) (src : ClassSrc) : sigKwD true w src = (build w src).sig.kwargs := rfl
+
 theorem stubD_mandatory_first (apd : Bool) (w : World) (src : ClassSrc) :
     mandatoryFirst (stubInitD apd w src).params = true := by
   show mandatoryFirst (orderedArgs _) = true
@@ -548,9 +551,9 @@ def defAll : World → List ClassSrc → World
   | w, s :: rest => defAll (w.add (build w s)) rest
 
 /-- `class A: x, a; _optional = ['x']` / `class B(A): b` / `class C(A): x (required again), c = default;
-    _additional_properties = False` / `class D(B, C): d` — a benign diamond: MRO `D B C A` (C3); `get_base_info` takes
-    `x` from the first base that has it (`B`: optional); stub and signature agree on names, defaults and the `**`
-    clause (`_additional_properties = False` inherited from `C`) -/
+    _additional_properties = False` / `class D(B, C): d` — a benign diamond: MRO `D B C A` (C3); `get_base_info` finds `x` optional in `B`'s signature and required in `C`'s: the later,
+    stricter base wins (fix d18be04); stub and signature agree on names, defaults and the `**` clause
+    (`_additional_properties = False` inherited from `C`, fix 5f45702) -/
 def dmA : ClassSrc := { name := "A", bases := ["Structure"], entries := [dFld "x", dFld "a"], optional := ["x"] }
 def dmB : ClassSrc := { name := "B", bases := ["A"], entries := [dFld "b"] }
 def dmC : ClassSrc := { name := "C", bases := ["A"], entries := [dFld "x", dFld "c" true], addl := some false }
@@ -559,10 +562,11 @@ def dmW : World := defAll World.init [dmA, dmB, dmC]
 
 theorem stubD_diamond_example :
     (build dmW dmD).mro = ["D", "B", "C", "A", "Structure"] ∧
-    (stubInitD true dmW dmD).params = [⟨"a", false⟩, ⟨"b", false⟩, ⟨"d", false⟩, ⟨"x", true⟩, ⟨"c", true⟩] ∧
-    (Typedpy.sigOf dmW dmD).req = ["a", "b", "d"] ∧ (Typedpy.sigOf dmW dmD).opt = ["x", "c"] ∧
+    (stubInitD true dmW dmD).params = [⟨"x", false⟩, ⟨"a", false⟩, ⟨"b", false⟩, ⟨"d", false⟩, ⟨"c", true⟩] ∧
+    (Typedpy.sigOf dmW dmD).req = ["a", "b", "x", "d"] ∧ (Typedpy.sigOf dmW dmD).opt = ["c"] ∧
     namesCovered dmW dmD = true ∧
-    (stubInitD true dmW dmD).kw = false ∧ sigKwD true dmW dmD = false ∧ inheritedOffD true dmW dmD = true := by
+    (stubInitD true dmW dmD).kw = false ∧ sigKwD true dmW dmD = false ∧ (Typedpy.sigOf dmW dmD).kwargs = false ∧
+    inheritedOffD true dmW dmD = true := by
   decide
 
 /-- `class Y: n = Constant(3), y` / `class P(Y): p` / `class Z(Y): n: String, z` / `class B(P, Z): b` /
